@@ -62,6 +62,25 @@ func (r *RecLogger) add(s string) {
 // UnsyncLen deliberately reads without synchronisation (see RecLogger).
 func (r *RecLogger) UnsyncLen() int { return len(r.lines) }
 
+// FmtLogger discards everything, but only after formatting it - like a real logger at trace level would: every
+// String() / Format method of the arguments runs (formatting must have no effect on what the container does).
+type FmtLogger struct{ quiet }
+
+var fmtSink int
+
+func (f FmtLogger) Level(syslog.Lv) syslog.Logger { return f }
+func (f FmtLogger) Pref(any) syslog.Logger        { return f }
+func (FmtLogger) Trace(v ...any)                  { fmtSink += len(fmt.Sprint(v...)) }
+func (FmtLogger) Tracef(s string, v ...any)       { fmtSink += len(fmt.Sprintf(s, v...)) }
+func (FmtLogger) Debug(v ...any)                  { fmtSink += len(fmt.Sprint(v...)) }
+func (FmtLogger) Debugf(s string, v ...any)       { fmtSink += len(fmt.Sprintf(s, v...)) }
+func (FmtLogger) Info(v ...any)                   { fmtSink += len(fmt.Sprint(v...)) }
+func (FmtLogger) Infof(s string, v ...any)        { fmtSink += len(fmt.Sprintf(s, v...)) }
+func (FmtLogger) Warn(v ...any)                   { fmtSink += len(fmt.Sprint(v...)) }
+func (FmtLogger) Warnf(s string, v ...any)        { fmtSink += len(fmt.Sprintf(s, v...)) }
+func (FmtLogger) Error(v ...any)                  { fmtSink += len(fmt.Sprint(v...)) }
+func (FmtLogger) Errorf(s string, v ...any)       { fmtSink += len(fmt.Sprintf(s, v...)) }
+
 // Rec0 is the process-wide recording logger, installed by Main when VERIF_REC_LOGGER=1.
 var Rec0 *RecLogger
 
@@ -178,7 +197,9 @@ func (r *Recorder) flush() {
 
 // Main is the TestMain body of every property package.
 func Main(m *testing.M) {
-	if os.Getenv("VERIF_REC_LOGGER") == "1" {
+	if os.Getenv("VERIF_FMT_LOGGER") == "1" {
+		syslog.SetLogger(FmtLogger{})
+	} else if os.Getenv("VERIF_REC_LOGGER") == "1" {
 		Rec0 = &RecLogger{}
 		syslog.SetLogger(Rec0)
 	} else if os.Getenv("VERIF_REAL_LOGGER") == "1" {
